@@ -3,7 +3,7 @@ import core
 from core import hx, gen_int, gen_mag
 
 ID = "C07"
-READY = False
+READY = True
 ORACLE = "c07"
 HARNESS_BIN = "c07"
 NCASES = {"quick": 7000, "thorough": 120000}
